@@ -16,8 +16,32 @@ import (
 
 type attempt struct {
 	Sig    [][]interface{} `json:"sig"`    // [[id, ceiling], ...] consulted in order by this attempt
-	Action string          `json:"action"` // "abort" | "goto:<label>" | "done"
+	Action string          `json:"action"` // "abort" | "goto:<label>" | "done" | "refuse:goto:<label>" (body completes incl. Goto, then a resource refuses PreCommit)
 }
+
+// refuser is a resource whose PreCommit is refused when armed: the section body has completed (including its Goto)
+// and the attempt is rolled back at commit time.
+type refuser struct {
+	distsys.ArchetypeResourceLeafMixin
+	armed bool
+}
+
+func done() chan struct{} { c := make(chan struct{}, 1); c <- struct{}{}; return c }
+
+func (r *refuser) Abort(distsys.ArchetypeInterface) chan struct{} { r.armed = false; return done() }
+func (r *refuser) PreCommit(distsys.ArchetypeInterface) chan error {
+	c := make(chan error, 1)
+	if r.armed {
+		c <- distsys.ErrCriticalSectionAborted
+	} else {
+		c <- nil
+	}
+	return c
+}
+func (r *refuser) Commit(distsys.ArchetypeInterface) chan struct{}        { r.armed = false; return done() }
+func (r *refuser) ReadValue(distsys.ArchetypeInterface) (tla.Value, error) { return tla.MakeNumber(0), nil }
+func (r *refuser) WriteValue(distsys.ArchetypeInterface, tla.Value) error  { return nil }
+func (r *refuser) Close() error                                            { return nil }
 
 type kase struct {
 	ID  int             `json:"id"`
@@ -27,6 +51,9 @@ type kase struct {
 	Start  string    `json:"start"`
 	Labels []string  `json:"labels"`
 	Script []attempt `json:"script"`
+	// NoWrap: leave the context's own round-robin counter in place (no recording wrapper, so optional methods the
+	// runtime may look for on the counter stay visible); BeginCriticalSection calls are then not observed
+	NoWrap bool `json:"nowrap"`
 }
 
 // recording wrapper around the real round-robin counter
@@ -56,6 +83,7 @@ func runLoopCase(k kase) (res runResult) {
 	res.ID = k.ID
 	log := [][]interface{}{}
 	pos := 0
+	ref := &refuser{}
 	body := func(label string) func(iface distsys.ArchetypeInterface) error {
 		return func(iface distsys.ArchetypeInterface) error {
 			log = append(log, []interface{}{"A", label})
@@ -65,9 +93,22 @@ func runLoopCase(k kase) (res runResult) {
 			at := k.Script[pos]
 			pos++
 			for _, c := range at.Sig {
-				iface.NextFairnessCounter(c[0].(string), uint(c[1].(float64)))
+				v := iface.NextFairnessCounter(c[0].(string), uint(c[1].(float64)))
+				if k.NoWrap {
+					log = append(log, []interface{}{"N", c[0], c[1], v})
+				}
 			}
 			switch {
+			case len(at.Action) > 12 && at.Action[:12] == "refuse:goto:":
+				h, err := iface.RequireArchetypeResourceRef("A.r")
+				if err != nil {
+					return err
+				}
+				if err := iface.Write(h, nil, tla.MakeNumber(1)); err != nil {
+					return err
+				}
+				ref.armed = true
+				return iface.Goto(at.Action[12:])
 			case at.Action == "abort":
 				return distsys.ErrCriticalSectionAborted
 			case at.Action == "done":
@@ -84,6 +125,7 @@ func runLoopCase(k kase) (res runResult) {
 	}
 	arch := distsys.MPCalArchetype{
 		Name: "A", Label: k.Start,
+		RequiredRefParams: []string{"A.r"},
 		JumpTable: distsys.MakeMPCalJumpTable(sections...),
 		ProcTable: distsys.MakeMPCalProcTable(),
 		PreAmble:  func(iface distsys.ArchetypeInterface) {},
@@ -95,8 +137,11 @@ func runLoopCase(k kase) (res runResult) {
 				done <- fmt.Errorf("panic: %v", r)
 			}
 		}()
-		ctx := distsys.NewMPCalContext(tla.MakeNumber(1), arch,
-			distsys.SetFairnessCounter(&recFC{inner: distsys.MakeRoundRobinFairnessCounter(), log: &log}))
+		cfg := []distsys.MPCalContextConfigFn{distsys.EnsureArchetypeRefParam("r", ref)}
+		if !k.NoWrap {
+			cfg = append(cfg, distsys.SetFairnessCounter(&recFC{inner: distsys.MakeRoundRobinFairnessCounter(), log: &log}))
+		}
+		ctx := distsys.NewMPCalContext(tla.MakeNumber(1), arch, cfg...)
 		done <- ctx.Run()
 	}()
 	select {
